@@ -5,6 +5,7 @@ CONSTANTS
  CleanerAcquire <- CleanerAcquireSeq
  CleanerDrop <- DropSeq
  CleanerRefuse <- CleanerRefuseSeq
+ CleanerRefuseGone <- CleanerRefuseGoneSeq
  NodeMap <- NodeMapVal
  Monitors = {"M1"}
  Cleaners = {"C1"}
